@@ -398,37 +398,39 @@ type loopCtx struct {
 }
 
 type fnCtx struct {
-	g          *fnGen
-	fn         *fnFunc
-	vars       map[*ast.Object]*fnVar
-	fields     map[string]*fnVar
-	logs       map[string]*fnVar
-	cbs        map[string]*fnVar // function-typed fields used as pure callbacks
-	used       map[string]bool
-	all        []*fnVar
-	ntmp       int
-	nloop      int
-	fix        []string // emitted Fixpoints, in emission order (inner loops first)
-	loops      []*loopCtx
-	zero       *fnVar            // the zero value of fn.zeroType (the first of zeros)
-	zeros      map[string]*fnVar // type parameter -> its zero value argument
-	objs       map[string]*objInfo
-	body       *ast.BlockStmt // the body without the mutex prologue
-	tparams    map[string]bool
-	elemT      map[string]*fnType // type parameter name -> its representation
-	retNames   []*fnVar           // named results
-	fuel       bool
-	synth      map[ast.Node]*fnVar
-	synthLim   map[ast.Node]*fnVar
-	synthKey   map[ast.Node]*fnVar
-	foreignPkg string               // while the signature of a method of another package is read: that package
-	mapMut     map[*ast.Object]bool // the variables whose map may be changed
-	synthWin   map[ast.Node]*fnVar
-	noMapMut   bool // the body changes no map at all: map variables may be copied (read-only aliases)
-	loopDone   map[ast.Node]string
-	loopInfo   map[string]*loopInfo
-	extras     map[string]*fnVar // by key
-	fat        map[*fnVar]*fnVar // slice variable -> the rest of its backing array (up to cap)
+	g           *fnGen
+	fn          *fnFunc
+	vars        map[*ast.Object]*fnVar
+	fields      map[string]*fnVar
+	logs        map[string]*fnVar
+	cbs         map[string]*fnVar // function-typed fields used as pure callbacks
+	used        map[string]bool
+	all         []*fnVar
+	ntmp        int
+	nloop       int
+	fix         []string // emitted Fixpoints, in emission order (inner loops first)
+	loops       []*loopCtx
+	zero        *fnVar            // the zero value of fn.zeroType (the first of zeros)
+	zeros       map[string]*fnVar // type parameter -> its zero value argument
+	objs        map[string]*objInfo
+	body        *ast.BlockStmt // the body without the mutex prologue
+	tparams     map[string]bool
+	elemT       map[string]*fnType // type parameter name -> its representation
+	retNames    []*fnVar           // named results
+	fuel        bool
+	synth       map[ast.Node]*fnVar
+	synthLim    map[ast.Node]*fnVar
+	synthKey    map[ast.Node]*fnVar
+	foreignPkg  string               // while the signature of a method of another package is read: that package
+	mapMut      map[*ast.Object]bool // the variables whose map may be changed
+	synthWin    map[ast.Node]*fnVar
+	wordPtrDecl map[*ast.Object]*ast.IndexExpr // v := (*uint64)(unsafe.Pointer(&data[i])): v -> data[i]
+	wordPtrIdx  map[*ast.Object]string         // ... and the index it was taken at
+	noMapMut    bool                           // the body changes no map at all: map variables may be copied (read-only aliases)
+	loopDone    map[ast.Node]string
+	loopInfo    map[string]*loopInfo
+	extras      map[string]*fnVar // by key
+	fat         map[*fnVar]*fnVar // slice variable -> the rest of its backing array (up to cap)
 }
 
 func (c *fnCtx) lostAt(n ast.Node, format string, args ...any) {
